@@ -3,6 +3,8 @@ C01 — Replicas of a datatype converge once they have the same operations.
 -/
 import Orda.Proofs.MapCounter
 import Orda.Proofs.Rga
+import Orda.Proofs.RgaFull
+import Orda.Proofs.DocConv
 namespace Orda.Props.C01
 open Orda
 
@@ -37,5 +39,84 @@ theorem counter_converges (ops ops' : List Op) (hp : ops.Perm ops') :
 theorem list_converges (ops ops' : List InsOp) (hp : ops.Perm ops') (hc : InsCausal ops) (hc' : InsCausal ops') :
     (Rga.empty.applyAllIns ops).ids = (Rga.empty.applyAllIns ops').ids :=
   rga_converge ops ops' hp hc hc'
+
+/-! ### list: FULL state, inserts + updates + deletes mixed -/
+
+/-- the list operations of the wire, as `LOp` (an insert without target timestamp is malformed) -/
+def toLOp (o : Op) : Option LOp :=
+  match o.body with
+  | .insert _ (some a) vs => some (.ins a o.id.ts vs)
+  | .delete _ _ tg => some (.del tg o.id.ts)
+  | .update _ tg vs => some (.upd tg vs o.id.ts)
+  | _ => none
+
+/-- `Rga.applyL` IS what the replica's remote execution (`Replica.execRemoteBase`, used by every receive
+    and replay path) does to a list state -/
+theorem replica_remote_exec_is_applyL (r : Replica) (l : Rga) (o : Op) (lo : LOp)
+    (hs : r.state = .list l) (ho : toLOp o = some lo) :
+    (r.execRemoteBase o).1.state = .list (l.applyL lo) := by
+  unfold toLOp at ho
+  unfold Replica.execRemoteBase
+  rcases o with ⟨id, body⟩
+  cases body <;> simp only [reduceCtorEq] at ho
+  case insert p t vs =>
+    cases t with
+    | none => simp at ho
+    | some a =>
+      simp only [Option.some.injEq] at ho; subst ho
+      simp only [hs, execRemote, Rga.applyL]
+      cases l.insertRemote a id.ts vs <;> simp
+  case delete p n tg =>
+    simp only [Option.some.injEq] at ho; subst ho
+    simp [hs, execRemote, Rga.applyL]
+  case update p tg vs =>
+    simp only [Option.some.injEq] at ho; subst ho
+    simp only [hs, execRemote, Rga.applyL]
+    cases l.updateRemote tg vs id.ts <;> simp
+
+/-- list, full strength: two replicas that applied the same inserts, updates and deletes, each in ANY
+    causal order, hold the same nodes — same order, same values, same value timestamps, same tombstones —
+    and the same Size -/
+theorem list_full_state_converges (ops ops' : List LOp) (hp : ops.Perm ops') (hc : LCausal ops) (hc' : LCausal ops') :
+    Rga.empty.applyAllL ops = Rga.empty.applyAllL ops' :=
+  rga_full_converge_state ops ops' hp hc hc'
+
+/-- Size is the number of live elements in every reachable list state -/
+theorem list_size_is_live_count (ops : List LOp) (hc : LCausal ops) :
+    (Rga.empty.applyAllL ops).size = RF.liveCount (Rga.empty.applyAllL ops).nodes :=
+  RF.size_eq_liveCount ops hc
+
+/-! ### document: object operations (put / remove at any object node, values of any nesting depth) -/
+
+open Orda.DC in
+/-- the replica's remote execution of a document put/remove IS `DC.applyOp` -/
+theorem replica_remote_exec_is_doc_applyOp {d : Doc} (hwf : d.WF) {p : Ts} {k : String} {v : JVal} {ts : Ts}
+    (hput : OpOK d (.put p k v ts)) :
+    execRemote (.doc d) ts (.docPut p k v) = .ok (.doc (applyOp d (.put p k v ts))) := execRemote_put hwf hput
+
+open Orda.DC in
+/-- document, object operations: two replicas that apply the same puts/removes (any parents, any keys, any
+    nesting of the values; distinct timestamps, fresh ids, removes of keys that exist) in ANY order reach
+    `Sim`-equal node tables — equal parents, shapes, container tombstones, per-key LWW state and sizes; what
+    `Sim` forgets is invisible (order of keys inside an object's association list, the deletion stamp and
+    identity of nodes no longer referenced) — … -/
+theorem doc_object_ops_converge {d : Doc} {l l' : List ObjOp} (hp : l.Perm l') (h : Good d l) :
+    Sim (applyAll d l) (applyAll d l') := converge_sim hp h h (sim_equivalence.refl d)
+
+open Orda.DC in
+/-- … and show the same JSON value (objects compared as key-sorted, which is how the Go side marshals maps) -/
+theorem doc_object_ops_same_view {d : Doc} {l l' : List ObjOp} (hp : l.Perm l') (h : Good d l) (hv : ViewOK d)
+    (hk : ∀ o ∈ l, OpKeysND o) : (applyAll d l).view.canon = (applyAll d l').view.canon :=
+  converge_view hp h hv hk
+
+open Orda.DC in
+/-- operations on different parents commute exactly (identical node lookup, identical view) -/
+theorem doc_ops_on_different_parents_commute {d : Doc} {l l' : List ObjOp} (hp : l.Perm l') (h : Good d l)
+    (hpar : l.Pairwise (fun a b => a.parent ≠ b.parent)) :
+    DocEq (applyAll d l) (applyAll d l') ∧ (applyAll d l).view = (applyAll d l').view :=
+  converge_docEq_diff_parents hp h hpar
+
+/-- the hypotheses are met by the empty document -/
+theorem doc_empty_ready : Doc.empty.WF ∧ DC.ViewOK Doc.empty := ⟨DC.wf_doc_empty, DC.viewOK_empty⟩
 
 end Orda.Props.C01
